@@ -26,6 +26,7 @@ func (fv *FuncVC) reset() {
 	fv.obls = nil
 	fv.nCanary = 0
 	fv.edgeHits = nil
+	fv.acquired = nil
 	fv.regs = map[ssa.Value]*Val{}
 	fv.direct = map[*ssa.Alloc]bool{}
 	fv.heapSort = map[string]string{}
